@@ -329,10 +329,7 @@ def rule_I4(ctx):
         t = par
     caught = {}
     for h in handlers:
-        names = []
-        if h.type is not None:
-            for n in ([h.type] if not isinstance(h.type, ast.Tuple) else h.type.elts):
-                names.append(dotted(n) or "?")
+        names = [] if h.type is None else handler_names(h, dotted_names=True)
         for nm in names:
             caught[nm] = h
             caught[nm.split(".")[-1]] = h
@@ -504,9 +501,38 @@ def rule_O1(ctx):
         and "if sample_entry.index not in sample_files.keys()" in t and "sample_files[sample_entry.index] = sample_file" in t and "list(sample_files.values())" in t
     ctx.ob("O1", sf, "every sample of every partial of a patch is collected once, keyed by its sample index", ok, "", inst="collect-samples")
     pf = ctx.fn(RO + "performance_entry.py", "PerformanceEntry.files", "O1")
-    t = full(pf)
-    ok = "for patch in patches" in t and "samples += samples_result" in t and "patches = list(self.patch_entries)" in t and "files = programs + samples" in t
-    ctx.ob("O1", pf, "a performance's files = its patches' programs plus the samples of all its patches", ok, "", inst="collect-performance")
+    from .sem import list_builder, canon_expr, single_defs
+    # the two collections are built per patch, in patch order; files = programs followed by samples
+    holder = None
+    for n in own_nodes(pf):
+        if isinstance(n, ast.If) and any(isinstance(x, ast.For) for x in n.body):
+            holder = n
+    ok, det = holder is not None, "collection block not found"
+    if ok:
+        fake = ast.FunctionDef(name="_blk", args=pf.args, body=holder.body, decorator_list=[], returns=None, type_comment=None, lineno=holder.lineno, col_offset=0)
+        for ch in ast.walk(fake):
+            pass
+        asg = [a for a in holder.body if isinstance(a, ast.Assign) and len(a.targets) == 1 and isinstance(a.targets[0], ast.Name)]
+        files_v = [a.value for a in asg if a.targets[0].id == "files" or (isinstance(a.value, (ast.BinOp, ast.List)) and not isinstance(a.value, ast.Constant))]
+        parts = None
+        for v in files_v:
+            if isinstance(v, ast.BinOp) and isinstance(v.op, ast.Add) and isinstance(v.left, ast.Name) and isinstance(v.right, ast.Name):
+                parts = [v.left.id, v.right.id]
+            elif isinstance(v, ast.List) and len(v.elts) == 2 and all(isinstance(e, ast.Starred) and isinstance(e.value, ast.Name) for e in v.elts):
+                parts = [v.elts[0].value.id, v.elts[1].value.id]
+        ok = parts is not None
+        det = "files is not <programs> followed by <samples>"
+        if ok:
+            b0, b1 = list_builder(fake, parts[0]), list_builder(fake, parts[1])
+            src = None
+            for a in asg:
+                if b0 is not None and a.targets[0].id == b0[0]:
+                    src = " ".join(ast.unparse(a.value).split())
+            want0 = [(None, "sc_program._decode(_c0, context, '')")]
+            want1 = [("'*'", "sc_samples._decode(_c0, context, '')")]
+            ok = b0 is not None and b1 is not None and b0[0] == b1[0] and b0[1] == want0 and b1[1] == want1 and src in ("list(self.patch_entries)", "self.patch_entries")
+            det = "" if ok else f"programs built as {b0}, samples as {b1}, over `{src}`"
+    ctx.ob("O1", pf, "a performance's files = its patches' programs plus the samples of all its patches", ok, "" if ok else det, inst="collect-performance")
 
 
 def rule_R1(ctx):
